@@ -45,10 +45,10 @@ def build_collection(rec):
     return AnnotationCollection(feature_collections=fcs, genes=genes, sequence_name=SEQNAME, parent_or_seq_chunk_parent=parent)
 
 
-def export(rec, flavour, upd):
+def export(rec, flavour, upd, **kw):
     ac = build_collection(rec)
     buf = io.StringIO()
-    collection_to_genbank([ac], buf, genbank_type=GenbankFlavor[flavour], update_translations=upd)
+    collection_to_genbank([ac], buf, genbank_type=GenbankFlavor[flavour], update_translations=upd, **kw)
     return buf.getvalue()
 
 
